@@ -733,7 +733,18 @@ class Evaluator:
 
     def ev_Dict(self, n, ctx):
         if n.keys:
-            raise OutOfSubset('non-empty dict literal')
+            # {k1: v1, ..}: built from the empty dictionary by stores (all keys / values of one type each)
+            if any(k is None for k in n.keys):
+                raise OutOfSubset('dict literal with ** unpacking')
+            ks = [self.ev(k, ctx) for k in n.keys]
+            vs = [self.ev(v, ctx) for v in n.values]
+            dt = TDict(ks[0].ty, vs[0].ty)
+            has = z3.K(dt.k.sort(), False)
+            at = fresh('dflt', z3.ArraySort(dt.k.sort(), dt.v.sort()))
+            for k_, v_ in zip(ks, vs):
+                has = z3.Store(has, coerce(k_, dt.k).t, True)
+                at = z3.Store(at, coerce(k_, dt.k).t, coerce(v_, dt.v).t)
+            return V(dt, dt.mk(has, at))
         hint = getattr(n, '_dict_ty', None)
         if hint is None:
             raise OutOfSubset('dict literal without a type hint (contract `locals`)')
